@@ -38,7 +38,7 @@ echo "== demo on unchanged checkout (expect pass)"
 if rundemo; then echo "   PASS (as expected)"; clean_ok=1; else echo "   FAIL (unexpected)"; clean_ok=0; fi
 (cd "$W" && git checkout -- . && git clean -fdq)
 echo "== apply patch"
-(cd "$W" && git apply "$D/patch.diff") || { echo "   patch does not apply"; exit 3; }
+(cd "$W" && git apply "$D/patch.diff" 2>/dev/null || git apply --3way "$D/patch.diff") || { echo "   patch does not apply"; exit 3; }
 (cd "$W" && go build ./... ) || { echo "   does not compile"; exit 3; }
 echo "== pinned suite with the change (expect pass)"
 if (cd "$W" && timeout 1500 go test -vet=off -count=1 ./... 2>&1 | grep -v "no test files" | grep -v "^ok" | head -20 | grep . ); then echo "   SUITE FAILS"; suite_ok=0; else echo "   suite passes"; suite_ok=1; fi
